@@ -173,6 +173,16 @@ func (e *Exec) callStringers(format string, known bool, va Slice) {
 	}
 }
 
+// noteTimerDelay accumulates "some timer was armed with a negative delay" (h.NegativeTimerDelay).
+func (e *Exec) noteTimerDelay(d Value) {
+	if t, ok := d.(*Term); ok {
+		if e.negTimer == nil {
+			e.negTimer = tFalse
+		}
+		e.negTimer = Or(e.negTimer, Lt(t, K(0)))
+	}
+}
+
 func sprintfModel(e *Exec, fn *ssa.Function, args []Value) Value {
 	switch fn.Name() {
 	case "Sprintf", "Errorf":
@@ -480,6 +490,7 @@ func buildHandlers() map[string]handler {
 		return nil
 	}
 	h["time.NewTimer"] = func(e *Exec, fn *ssa.Function, a []Value) Value {
+		e.noteTimerDelay(a[0])
 		pt := resultType(fn, 0).(*types.Pointer)
 		so := e.zero(pt.Elem()).(*StructObj)
 		elem := so.typ.Underlying().(*types.Struct).Field(0).Type().Underlying().(*types.Chan).Elem()
@@ -518,6 +529,7 @@ func buildHandlers() map[string]handler {
 			panic(unsupported("Reset on unknown timer"))
 		}
 		e.yield(func() bool { return true }, t)
+		e.noteTimerDelay(a[1])
 		was := t.armed
 		t.armed = true
 		return B(was)
@@ -969,7 +981,21 @@ func buildHandlers() map[string]handler {
 		return Iface{t: reflectTypeType, v: &reflType{i.t}}
 	}
 	// backoff
+	// backoff (cenkalti/backoff v4): the constructor sets the library's documented defaults and
+	// applies its options; NextBackOff returns a fresh delay - or Stop (-1) once MaxElapsedTime
+	// (when non-zero) has elapsed since the last Reset, which is the environment's choice.
 	h["(*github.com/cenkalti/backoff/v4.ExponentialBackOff).NextBackOff"] = func(e *Exec, fn *ssa.Function, a []Value) Value {
+		if c, ok := a[0].(*Cell); ok && c != nil {
+			if so, ok := c.v.(*StructObj); ok {
+				if f := structField(so, "MaxElapsedTime"); f != nil {
+					if m, ok := f.v.(*Term); ok && !e.decide(Eq(m, K(0))) {
+						if e.chooseN(2, nil) == 1 {
+							return K(-1) // backoff.Stop
+						}
+					}
+				}
+			}
+		}
 		t := e.freshVar("backoff", SInt)
 		e.assertPC(Le(K(0), t))
 		e.assertPC(Lt(t, KBig(pow2[40])))
@@ -978,7 +1004,28 @@ func buildHandlers() map[string]handler {
 	h["(*github.com/cenkalti/backoff/v4.ExponentialBackOff).Reset"] = noop
 	h["github.com/cenkalti/backoff/v4.NewExponentialBackOff"] = func(e *Exec, fn *ssa.Function, a []Value) Value {
 		pt := resultType(fn, 0).(*types.Pointer)
-		return &Cell{v: e.zero(pt.Elem())}
+		so := e.zero(pt.Elem()).(*StructObj)
+		for name, v := range map[string]int64{"InitialInterval": 500000000, "MaxInterval": 60000000000, "MaxElapsedTime": 900000000000} {
+			if f := structField(so, name); f != nil {
+				f.v = K(v)
+			}
+		}
+		for name, v := range map[string]float64{"RandomizationFactor": 0.5, "Multiplier": 1.5} {
+			if f := structField(so, name); f != nil {
+				f.v = KF(v, SF64)
+			}
+		}
+		c := &Cell{v: so}
+		if len(a) == 1 {
+			if opts, ok := a[0].(Slice); ok {
+				for i := 0; i < opts.len; i++ {
+					if cl, ok := opts.arr.elems[opts.off+i].v.(*Closure); ok && cl != nil {
+						e.call(cl.fn, []Value{c}, cl.free)
+					}
+				}
+			}
+		}
+		return c
 	}
 	h["(*google.golang.org/grpc.ClientConn).Close"] = func(e *Exec, fn *ssa.Function, a []Value) Value {
 		if f := e.harnessFunc("vConnClose"); f != nil {
